@@ -27,7 +27,7 @@ import hashlib
 import os
 import re
 
-from .rsparse import ExtractError, extract_fn, extract_region, mask, match_close, norm_ws
+from .rsparse import ExtractError, GuardEscape, extract_fn, extract_region, mask, match_close, norm_ws
 
 FLAVOURS = {
     "dg": dict(dir="digraph", sync=False, directed=True),
@@ -772,7 +772,7 @@ def generate(template_path, flavour, repo="/repo", vacuity=False, rules=None, ba
             body = apply_R9(body, stats)
         if b.heap != "none" or CHAIN_RE.search(mask(body)):
             if b.heap == "none":
-                raise ExtractError("%s: adjacency access chain in a function declared heap-free" % b.id)
+                raise GuardEscape(b.id, "%s: adjacency guard created in a function that takes no heap (its guard would outlive the call: R4b guard-escape)" % b.id)
             body, guards = apply_R4(body, heap_methods, stats, b.id)
         # loops: labels + specs
         m = mask(body)
